@@ -234,6 +234,9 @@ def _install_common(ctx):
         importlib.import_module(mod)
     ctx.seam.install()
     executor.install(ctx.seam)
+    from . import probes
+
+    probes.install(ctx.probes)
     import logging
 
     logging.disable(logging.CRITICAL)
